@@ -160,7 +160,12 @@ func checkIndexGate(p *Program, r *Result) {
 	}
 	tableToInfo := map[string]string{}
 	oc := &originCtx{p: p}
-	for _, in := range instrsOf(infoFn) {
+	// (the literal may be built in an unexported helper Info delegates to: Reader.summaryInfo, iterator.info(header))
+	var infoInstrs []ssa.Instruction
+	for _, rf := range regionOf(p, infoFn, 3) {
+		infoInstrs = append(infoInstrs, instrsOf(rf)...)
+	}
+	for _, in := range infoInstrs {
 		st, ok := in.(*ssa.Store)
 		if !ok {
 			continue
@@ -184,10 +189,12 @@ func checkIndexGate(p *Program, r *Result) {
 	}
 	_ = oc
 	gateReads := map[string]bool{}
-	for _, in := range instrsOf(gate) {
-		if u, ok := in.(*ssa.UnOp); ok && u.Op == token.MUL {
-			if tn, f, _, ok := fieldRef(u.X); ok && tn == "Info" {
-				gateReads[f] = true
+	for _, rf := range regionOf(p, gate, 2) { // the gate may ask helper predicates of Info
+		for _, in := range instrsOf(rf) {
+			if u, ok := in.(*ssa.UnOp); ok && u.Op == token.MUL {
+				if tn, f, _, ok := fieldRef(u.X); ok && tn == "Info" {
+					gateReads[f] = true
+				}
 			}
 		}
 	}
